@@ -1101,9 +1101,6 @@ func mcInvariants(d *meta2.Data, hist *mcIdHistory, ghostDur map[uint64]time.Dur
 					ghostDur[g.ID] = rpi.ShardGroupDuration
 				}
 				dur := ghostDur[g.ID]
-				if g.StartTime.Before(time.Unix(0, models.MinNanoTime)) || g.EndTime.After(time.Unix(0, models.MaxNanoTime).Add(1)) {
-					set("GroupsDisjointAlignedSorted", fmt.Sprintf("%s: group %d [%s, %s) reaches outside the legal time range", where, g.ID, mcFmtTime(g.StartTime), mcFmtTime(g.EndTime)))
-				}
 				if !g.StartTime.Before(g.EndTime) {
 					set("GroupsDisjointAlignedSorted", fmt.Sprintf("%s: group %d spans [%s, %s)", where, g.ID, mcFmtTime(g.StartTime), mcFmtTime(g.EndTime)))
 				} else if dur > 0 && !g.StartTime.Truncate(dur).Equal(g.EndTime.Add(-1).Truncate(dur)) {
@@ -1130,7 +1127,7 @@ func mcInvariants(d *meta2.Data, hist *mcIdHistory, ghostDur map[uint64]time.Dur
 
 // which as-implemented deviation explains a violated invariant
 var mcInvDev = map[string][]string{
-	"GroupsDisjointAlignedSorted": {"groups_not_clipped", "far_past_start_wraps"},
+	"GroupsDisjointAlignedSorted": {"groups_not_clipped"},
 	"DefaultPolicyExists":         {"drop_rp_keeps_default"},
 }
 
@@ -1391,15 +1388,38 @@ func (r *mcRun) attributeReplica(diffs []string, ref, got map[string]interface{}
 	return out, ""
 }
 
+// the part of the projection that the far-past wrap-around can change: everything except the parts owned
+// by the other snapshot deviations (replica groups, partition view, sql nodes, measurement ids)
 func mcNoRgmap(p interface{}) interface{} {
-	m := p.(map[string]interface{})
-	out := map[string]interface{}{}
-	for k, v := range m {
-		if k != "rgmap" {
-			out[k] = v
+	var strip func(x interface{}, key string) interface{}
+	strip = func(x interface{}, key string) interface{} {
+		switch t := x.(type) {
+		case map[string]interface{}:
+			out := map[string]interface{}{}
+			for k, v := range t {
+				if key == "" && (k == "rgmap" || k == "rgs" || k == "ptv" || k == "sql") {
+					continue
+				}
+				if key == "ms" && k == "id" {
+					continue
+				}
+				nk := k
+				if key == "ms" {
+					nk = "ms-entry"
+				}
+				out[k] = strip(v, nk)
+			}
+			return out
+		case []interface{}:
+			out := make([]interface{}, len(t))
+			for i := range t {
+				out[i] = strip(t[i], key)
+			}
+			return out
 		}
+		return x
 	}
-	return out
+	return strip(p, "")
 }
 
 func mcDig(m map[string]interface{}, path ...string) interface{} {
@@ -1724,6 +1744,14 @@ func mcReplayCase(cs *mcCase) (res mcResult) {
 		}
 		// ---- C15: canonical dumps after the step
 		dA := mcDump(A)
+		if len(restoredKeys) > 0 { // a measurement that left the catalogue is no longer "the one from the snapshot"
+			now := mcMeasurementKeys(dA)
+			for k := range restoredKeys {
+				if !now[k] {
+					delete(restoredKeys, k)
+				}
+			}
+		}
 		res.DumpCmps += 2
 		if diffs := mcDiffOf(dA, mcDump(C)); len(diffs) > 0 {
 			run.fail(i, st.A, "C15", "instance with shuffled maps diverges from the reference: "+strings.Join(diffs, "; "))
